@@ -345,6 +345,14 @@ class World:
         from cryptography.hazmat.primitives.ciphers import Cipher, algorithms, modes
 
         class FakeAES:
+            name = "AES"
+            block_size = 128
+            key_sizes = frozenset([128, 192, 256, 512])
+
+            @property
+            def key_size(self):
+                return len(self.key) * 8
+
             def __init__(self, key):
                 if len(key) not in (16, 24, 32):
                     raise ValueError("Invalid key size for AES.")
